@@ -375,6 +375,12 @@ class SQLTranspiler(StructureVisitor, ASTTemplate):
             elif isinstance(child, AST.Assignment):
                 name = child.left.value  # type: ignore[attr-defined]
                 self.current_assignment = name
+                # The outermost operator of the statement: the only node whose structure is
+                # the statement's output structure.
+                root = child.right
+                while isinstance(root, AST.ParFunction):
+                    root = root.operand
+                self._assignment_root = root
                 self.inputs = self._get_assignment_inputs(name)
 
                 is_persistent = isinstance(child, AST.PersistentAssignment)
@@ -2532,9 +2538,22 @@ FROM (
             ds = self._get_dataset_structure(first_child)
             if ds:
                 # Normalize column order across all branches to prevent
-                # positional type mismatches in UNION ALL.
+                # positional type mismatches in UNION ALL.  The statement's output structure
+                # describes the union only when the union is the statement's outermost operator
+                # (or yields the same components); as an operand of a clause, an aggregation,
+                # a join or another operator the union has the columns and identifiers of its
+                # own first operand.
                 output_ds = self._get_output_dataset()
-                order_ds = output_ds if output_ds else ds
+                order_ds = ds
+                if output_ds and (
+                    getattr(self, "_assignment_root", None) is node
+                    or (
+                        set(output_ds.components) == set(ds.components)
+                        and set(output_ds.get_identifiers_names())
+                        == set(ds.get_identifiers_names())
+                    )
+                ):
+                    order_ds = output_ds
                 col_order = list(order_ds.components.keys())
                 ordered_cols = ", ".join(quote_name(c) for c in col_order)
                 ordered_sqls = [f"SELECT {ordered_cols} FROM ({sql}) AS _ord" for sql in child_sqls]
